@@ -6,6 +6,7 @@ import (
 	"flag"
 	"fmt"
 	"os"
+	"runtime/pprof"
 	"syscall"
 
 	"verifharness/mon"
@@ -21,6 +22,7 @@ func main() {
 	evidence := flag.String("evidence", "", "evidence file to write")
 	known := flag.String("known", "/verif/known_findings.jsonl", "known findings file")
 	replay := flag.String("replay", "", "replay one saved case")
+	cpuprof := flag.String("cpuprofile", "", "write a CPU profile")
 	flag.Parse()
 
 	// The library logs to stdout through a global logger; keep our stdout clean by
@@ -58,6 +60,11 @@ func main() {
 		return
 	}
 
+	if *cpuprof != "" {
+		f, _ := os.Create(*cpuprof)
+		_ = pprof.StartCPUProfile(f)
+		defer pprof.StopCPUProfile()
+	}
 	w := props.Registry[*prop]
 	if w == nil {
 		fmt.Printf("unknown property %q\n", *prop)
@@ -66,5 +73,7 @@ func main() {
 	x := mon.NewCtx(*prop, *tier, *seed, *out, *replays)
 	x.LoadKnown(*known)
 	w(x)
-	os.Exit(x.Finish(*evidence))
+	rc := x.Finish(*evidence)
+	pprof.StopCPUProfile()
+	os.Exit(rc)
 }
